@@ -46,6 +46,21 @@ func totalityFailure(doc []byte, allConfigs bool) string {
 				return
 			}
 		}
+		// block-by-block use with the zero-value InlineParser (nil ReferenceMatcher): legal, nothing resolves
+		if p := safely(func() {
+			bp := cm.NewBlockParser(bytes.NewReader(doc))
+			ip := new(cm.InlineParser)
+			for {
+				b, err := bp.NextBlock()
+				if err != nil {
+					break
+				}
+				ip.Rewrite(b)
+			}
+		}); p != "" {
+			fail = "Rewrite with nil ReferenceMatcher: panic: " + p
+			return
+		}
 		cfgs := allCfgs
 		if !allConfigs {
 			cfgs = []renderCfg{{}, {soft: cm.SoftBreakHarden, ignoreRaw: true}, {filter: "gfm"}, {soft: cm.SoftBreakSpace, filter: "all"}}
@@ -90,7 +105,7 @@ func kindOfFailure(s string) string {
 }
 
 func runC04(c *Ctx) {
-	c.Res.Rule = "every generated document (corpus, line-structured, fragments, mutations, exhaustive short strings over the construct-opening characters, all truncations of corpus documents, deep nesting up to the tier's depth) through Parse, NewBlockParser+Extract+Rewrite, Render under SoftBreak x IgnoreRaw x FilterTag (30 configurations on every 8th input, 4 otherwise), Format and Walk, each under recover and a 20 s watchdog; non-trivial = the document has an unterminated construct, invalid UTF-8, NUL, lone CR, or >= 3 root blocks; distinct by input bytes"
+	c.Res.Rule = "every generated document (corpus, line-structured, fragments, mutations, exhaustive short strings over the construct-opening characters, all truncations of corpus documents, deep nesting up to the tier's depth) through Parse, NewBlockParser+Extract+Rewrite, Render under SoftBreak x IgnoreRaw x FilterTag (36 configurations on every 8th input, 4 otherwise), Format and Walk, each under recover and a 20 s watchdog; non-trivial = the document has an unterminated construct, invalid UTF-8, NUL, lone CR, or >= 3 root blocks; distinct by input bytes"
 	one := func(idx int, fam string, doc []byte) {
 		c.fam(fam, "cases", 1)
 		f := totalityFailure(doc, idx%8 == 0)
@@ -136,6 +151,12 @@ func runC04(c *Ctx) {
 	}
 	for i, d := range hugeBlankRunDocs() {
 		one(i, "huge-blank-run", d)
+	}
+	for i, d := range deepNestDocs() {
+		one(i, "deep-nesting", d)
+	}
+	for i, d := range nearLimitDocs() {
+		one(i, "near-block-limit", d)
 	}
 	// truncations of every corpus document (unterminated constructs at end of input)
 	corpus := corpusDocs()
@@ -228,6 +249,15 @@ func schedulesFor(c *Ctx, doc []byte, idx int) []sched {
 		rnd2 = append(rnd2, rng.Intn(n+1))
 	}
 	out = append(out, sched{"random-large", rnd2, rng.Bool()})
+	// a long run of empty reads (0, nil) in the middle of the input: legal for an io.Reader, and the data after it must still arrive
+	var er []int
+	for i, k := 0, rng.Intn(n+1); i < k; i += 3 {
+		er = append(er, 3)
+	}
+	for i, k := 0, 90+rng.Intn(180); i < k; i++ {
+		er = append(er, 0)
+	}
+	out = append(out, sched{"empty-run", er, rng.Bool()})
 	return out
 }
 
@@ -277,12 +307,16 @@ func runC08(c *Ctx) {
 		}
 		mem.err = "error: " + e.Error()
 		want := fullWire(mem)
-		res, late := parseStream(&schedReader{data: append([]byte(nil), doc...), sched: append([]int(nil), s.chunks...), failAt: k, failErr: e, eofWith: s.eofWith}, 3)
+		rd := &schedReader{data: append([]byte(nil), doc...), sched: append([]int(nil), s.chunks...), failAt: k, failErr: e, eofWith: s.eofWith, recovers: (k+len(doc))%2 == 0}
+		res, late := parseStream(rd, 3)
 		if strings.HasPrefix(res.err, "panic") {
 			return ""
 		}
 		if got := fullWire(res); got != want {
 			return "fault-blocks-differ-from-prefix-parse"
+		}
+		if rd.readsAfterFail > 0 {
+			return "reader-called-again-after-it-failed"
 		}
 		for _, l := range late {
 			if l != "error: "+e.Error() {
@@ -292,6 +326,7 @@ func runC08(c *Ctx) {
 		return ""
 	}
 	e1, e2 := errInjected, errors.New("second error value")
+	errWrapsEOF := fmt.Errorf("transport closed: %w", io.EOF)
 	corr := &Batch{c: c}
 	defer corr.Flush()
 	one := func(idx int, fam string, doc []byte) {
@@ -304,11 +339,12 @@ func runC08(c *Ctx) {
 			if len(doc) > 1500 {
 				blocksCorr(c, corr, doc, scheds[idx%2], -1, 0)
 			} else {
-				for _, s := range scheds {
+				// (the empty-run schedule is for the implementation only: the model's reader loop has fuel)
+				for _, s := range scheds[:5] {
 					blocksCorr(c, corr, doc, s, -1, 0)
 				}
 				if len(doc) > 0 {
-					blocksCorr(c, corr, doc, scheds[idx%len(scheds)], idx%(len(doc)+1), 3+idx%5)
+					blocksCorr(c, corr, doc, scheds[idx%5], idx%(len(doc)+1), 3+idx%5)
 				}
 				memMetaCorr(c, corr, doc)
 			}
@@ -353,6 +389,9 @@ func runC08(c *Ctx) {
 				e = io.ErrUnexpectedEOF // what truncated gzip / HTTP bodies return
 			case 3:
 				e = io.ErrClosedPipe
+			}
+			if (i+idx)%7 == 5 {
+				e = errWrapsEOF // errors.Is(e, io.EOF) but e != io.EOF: a truncated stream, not the end of the document
 			}
 			s := scheds[(i+idx)%len(scheds)]
 			c.Res.Evals++
@@ -421,6 +460,17 @@ func runC08(c *Ctx) {
 	}
 	for i, d := range chunkBoundaryDocs() {
 		one(i*4, "chunk-boundary", d)
+	}
+	for i, d := range nearLimitDocs() {
+		if rootAboveStreamingLimit(d) {
+			continue // the property's side condition: no root block exceeds the size limit
+		}
+		c.fam("near-block-limit", "cases", 1)
+		for _, s := range []sched{{"whole", nil, false}, {"whole+eof", nil, true}} {
+			if r := compare(d, s); r != "" {
+				c.report("stream:"+kindOfFailure(r)+":"+s.name, d[:40], "near-block-limit", fmt.Sprintf("%s schedule=%s on document %d of nearLimitDocs (%d bytes, one root block below the documented 1 MiB limit)", r, s.name, i, len(d)), nil, nil)
+			}
+		}
 	}
 	for i, d := range hugeBlankRunDocs() {
 		c.fam("huge-blank-run", "cases", 1)
@@ -622,6 +672,9 @@ func runC09(c *Ctx) {
 		}
 		one(i, "long-labels", d, false)
 	}
+	for i, d := range deepNestDocs() {
+		one(i, "deep-nesting", d, false)
+	}
 	for i := 0; i < c.N(8000, 200000); i++ {
 		d := genInlineRich(newRng(c.Seed, "c09-rich", i), false)
 		if bytes.ContainsAny(d, "\t\r\x00") {
@@ -666,10 +719,22 @@ func normEOL(b []byte) string {
 	return strings.ReplaceAll(s, "\r", "\n")
 }
 
+// c14Parse is the entry point the three clauses go through: Parse, or (second pass, documents that cross a read
+// chunk) NewBlockParser over a reader + Extract + Rewrite.
+var c14Parse = parseMem
+
+func parseViaStream(input []byte) parseResult {
+	res, _ := parseStream(bytes.NewReader(append([]byte(nil), input...)), 0)
+	if res.err == "eof" {
+		res.err = ""
+	}
+	return res
+}
+
 func c14EOL(x []byte, eol string) string {
 	v := []byte(strings.ReplaceAll(string(x), "\n", eol))
-	a := parseMem(x)
-	b := parseMem(v)
+	a := c14Parse(x)
+	b := c14Parse(v)
 	if a.err != "" || b.err != "" {
 		return ""
 	}
@@ -695,8 +760,8 @@ func c14Pad(x []byte, pad string) string {
 	if strings.HasSuffix(pad, "\r") && len(x) > 0 && x[0] == '\n' {
 		return "" // CR + LF would merge into one line ending: the prefix would not be whole lines
 	}
-	a := parseMem(x)
-	b := parseMem(append([]byte(pad), x...))
+	a := c14Parse(x)
+	b := c14Parse(append([]byte(pad), x...))
 	if a.err != "" || b.err != "" {
 		return ""
 	}
@@ -736,8 +801,9 @@ func c14Final(x []byte) string {
 	if len(x) == 0 || x[len(x)-1] == '\n' || x[len(x)-1] == '\r' {
 		return ""
 	}
-	a := renderSafe(x)
-	b := renderSafe(append(append([]byte(nil), x...), '\n'))
+	ra, rb := c14Parse(x), c14Parse(append(append([]byte(nil), x...), '\n'))
+	a, _ := render(ra.roots, ra.refs, renderCfg{ignoreRaw: true})
+	b, _ := render(rb.roots, rb.refs, renderCfg{ignoreRaw: true})
 	if normInsignificant(a) != normInsignificant(b) {
 		return fmt.Sprintf("final newline changes the document: without %q with %q", a, b)
 	}
@@ -802,6 +868,24 @@ func runC14(c *Ctx) {
 			one(k, "truncation", d[:k])
 		}
 	}
+	// the same three clauses through the STREAMING entry point, on documents that cross the 8 KiB read chunk with a
+	// line ending, a NUL run or a multi-byte character at the boundary (the variants move them across it)
+	c14Parse = parseViaStream
+	for i, d := range chunkBoundaryDocs() {
+		one(i, "chunk-boundary(stream)", d)
+	}
+	for i := 0; i < c.N(60, 600); i++ {
+		rng := newRng(c.Seed, "c14-long", i)
+		var sb bytes.Buffer
+		for sb.Len() < 8100+rng.Intn(300) {
+			sb.Write(genLines(rng, false, 6))
+			if rng.Intn(3) == 0 {
+				sb.WriteString("\n")
+			}
+		}
+		one(i, "long(stream)", sb.Bytes())
+	}
+	c14Parse = parseMem
 	alpha := []string{"a", " ", "\n", "-", ">", "`", "#", "*", "\t", "="}
 	max := 5
 	if !c.quick() {
@@ -896,6 +980,18 @@ func runC16(c *Ctx) {
 	})
 	for i, d := range chunkBoundaryDocs() {
 		one(i, "chunk-boundary", d)
+	}
+	for i, d := range deepNestDocs() {
+		one(i, "deep-nesting", d)
+	}
+	for i, d := range nearLimitDocs() {
+		if rootAboveStreamingLimit(d) {
+			continue // re-parsing goes through the streaming parser, which documents a 1 MiB block limit
+		}
+		c.fam("near-block-limit", "cases", 1)
+		if r, _ := c16Check(d); r != "" {
+			c.report("reparse:"+stripDigits(kindOfReparse(r)), d[:40], "near-block-limit", fmt.Sprintf("%s (document %d of nearLimitDocs, %d bytes: one root block below the streaming parser's 1 MiB limit)", r, i, len(d)), nil, nil)
+		}
 	}
 	alpha := []string{"a", " ", "\n", "-", ">", "`", "#", "[", "]", ":", "=", "\t", "<"}
 	max := 5
